@@ -323,7 +323,8 @@ def class_factory(id_pack, methods):
                     cursor = name_pack[:cursor].rfind('.')
                     continue
                 _class_name = name_pack[cursor + 1:]
-                _class = getattr(_module, _class_name, None)
+                # the module's own namespace only: a module-level __getattr__ (PEP 562) could import, and the name is the peer's
+                _class = getattr(_module, '__dict__', {}).get(_class_name)
                 if _class is not None and hasattr(_class, '__class__'):
                     class_descriptor = NetrefClass(_class)
                 break
